@@ -1,4 +1,5 @@
 import TrucModel.Model.Replay
+import TrucModel.Model.VecConvert
 /-
   Line-protocol driver (channel L): one request per line on stdin, one answer per line on stdout.
 -/
@@ -28,6 +29,66 @@ def errStr : ErrKind → String
 
 def escape (s : String) : String := s.replace "\n" "\\n"
 
+/-! ### channel V -/
+namespace V
+open Truc.Vec
+
+abbrev UV := Nat × Nat   -- (ledger id, version)
+
+/-- the scripted converter of channel V (same definition as in the Rust harness) -/
+def scripted (script : Array String) (k : Nat) (_t : Nat) (prev : Option UV) : COut UV Nat Nat :=
+  match script[k]?.getD "c" with
+  | "c" => .converted (1000 + k, 0) prev
+  | "t" => .converted (1000 + k, 0) (prev.map fun (i, v) => (i, v + 1))
+  | "r" => .converted (1000 + k, 0) (prev.map fun _ => (2000 + k, 0))
+  | "a" => .abandoned prev
+  | "e" => .err (3000 + k) prev
+  | _ => .panic (4000 + k) prev
+
+def uStr (u : UV) : String := s!"U{u.1}.{u.2}"
+def slotStr : Slot Nat UV → String
+  | .inp t => s!"T{t}"
+  | .out u => uStr u
+  | .dead => "dead"
+
+def sortedJoin (l : List String) : String := ",".intercalate (l.toArray.qsort (· < ·)).toList
+
+def callsStr (calls : List (Nat × Option UV)) : String :=
+  "|".intercalate (calls.map fun (t, p) => s!"T{t}:" ++ (match p with | some u => uStr u | none => "-"))
+
+/-- what the scripted converter itself drops at call k (it owns its input) -/
+def convDrops (script : Array String) (calls : List (Nat × Option UV)) : String :=
+  let rec go (k : Nat) : List (Nat × Option UV) → List String
+    | [] => []
+    | (t, p) :: rest =>
+      let base := [s!"T{t}"]
+      let extra := match script[k]?.getD "c", p with
+        | "r", some u => [uStr u]
+        | "p3", _ => [uStr (1000 + k, 0)]
+        | _, _ => []
+      (s!"{k}:" ++ sortedJoin (base ++ extra)) :: go (k + 1) rest
+  ";".intercalate (go 0 calls)
+
+def run (toks : List String) : String :=
+  match toks with
+  | sT :: aT :: sU :: aU :: n :: script =>
+    match sT.toNat?, aT.toNat?, sU.toNat?, aU.toNat?, n.toNat? with
+    | some sT, some aT, some sU, some aU, some n =>
+      let sc := script.toArray
+      let out : VOut Nat UV Nat Nat := tryConvert (sT, aT) (sU, aU) (scripted sc) (List.range n)
+      match out with
+      | .done outs leaked calls =>
+        s!"done outs={",".intercalate (outs.map slotStr)} leaked={sortedJoin (leaked.map slotStr)} calls={callsStr calls} convdrops={convDrops sc calls} alloc=same"
+      | .failed why dropped leaked freed calls =>
+        let w := match why with | .inl e => s!"e{e}" | .inr p => s!"p{p}"
+        s!"failed why={w} fndrops={sortedJoin (dropped.map slotStr)} leaked={sortedJoin (leaked.map slotStr)} calls={callsStr calls} convdrops={convDrops sc calls} alloc={if freed then "freed" else "leaked"}"
+      | .refused dropped calls =>
+        s!"refused fndrops={sortedJoin (dropped.map slotStr)} calls={callsStr calls}"
+      | .ub _ => "ub"
+    | _, _, _, _, _ => "bad-op"
+  | _ => "bad-op"
+end V
+
 structure DState where
   b : BState := {}
   built : Option Definition := none
@@ -39,6 +100,7 @@ def infoStr (i : Info) : String :=
 def dstep (s : DState) (line : String) : DState × String :=
   match line.trimAscii.toString.splitOn " " with
   | "reset" :: _ => ({}, "--")
+  | "vec" :: toks => (s, V.run toks)
   | cmd =>
     if s.dead then (s, "dead") else
     match cmd with
